@@ -60,7 +60,7 @@ def _(c):
 # --------------------------------------------------------------------------
 # ManifestLoader.verify_and_load (C02, C06, C13)
 
-@contract('gemato/recursiveloader.py', 'ManifestLoader.verify_and_load', props=['C02', 'C06', 'C13', 'C18'])
+@contract('gemato/recursiveloader.py', 'ManifestLoader.verify_and_load', props=['C02', 'C05', 'C06', 'C13', 'C18'])
 def _(c):
     c.params(self=ML, relpath=Str, verify_entry=Opt(PathEntry))
     c.returns(TupleT(NewObj('ManifestFile'), Any))
@@ -172,7 +172,7 @@ def _(c):
 OptMF = opt_sort(z3.IntSort())
 
 
-@contract('gemato/recursiveloader.py', 'ManifestRecursiveLoader.load_manifest', props=['C02', 'C06', 'C10', 'C18', 'C19'])
+@contract('gemato/recursiveloader.py', 'ManifestRecursiveLoader.load_manifest', props=['C02', 'C06', 'C10', 'C16', 'C18', 'C19'])
 def _(c):
     c.params(self=RL, relpath=Str, verify_entry=Opt(PathEntry), allow_create=Bool, store_dev=Bool)
     c.returns(Obj('ManifestFile'))
@@ -186,6 +186,16 @@ def _(c):
             ty = it.engine.field_type(f)
             ctx.heap[f] = z3.Store(ctx.field_array(f), me.t, ctx.fresh_const('lm!' + f, ty.sort()))
     c.modifies(modifies)
+
+    def setup(it, fr, bound):
+        # A-fs: the second component of verify_and_load's result is the os.fstat() result of the Manifest; its st_dev is an int
+        def attr_hook(itp, obj, name, node):
+            if name == 'st_dev':
+                itp.engine.assumed.add('A-fs: st_dev of a stat result is an int')
+                return VInt(itp.ctx.fresh_const('st_dev', z3.IntSort()))
+            return None
+        it.engine.opaque_attr_hook = attr_hook
+    c.setup = setup
 
     def registered(s):
         lm = s.self.loaded_manifests
